@@ -14,6 +14,14 @@ if TYPE_CHECKING:
     from hypergraph.nodes.base import HyperNode
     from hypergraph.runners._shared.types import GraphState
 
+from hypergraph.nodes.base import _EMIT_SENTINEL
+
+
+def _emit_outputs(node: HyperNode) -> tuple[str, ...]:
+    """Ordering-only outputs of a node (they follow the data outputs)."""
+    return tuple(node.outputs[len(node.data_outputs) :])
+
+
 # Internal key used to store routing decisions alongside cached gate outputs.
 # Never exposed in RunResult.values.
 _ROUTING_DECISION_KEY = "__routing_decision__"
@@ -34,7 +42,11 @@ def check_cache(
 
     from hypergraph.cache import compute_cache_key
 
-    cache_key = compute_cache_key(node.definition_hash, inputs)
+    # The entry belongs to this node's function AND its outputs, and the arguments are
+    # keyed by the function's own parameter names: two nodes may wrap the same function
+    # under different output names or with differently renamed inputs.
+    identity = f"{node.definition_hash}:{','.join(node.outputs)}"
+    cache_key = compute_cache_key(identity, node.map_inputs_to_params(inputs))
     if not cache_key:
         return "", None
 
@@ -42,7 +54,11 @@ def check_cache(
     if not hit:
         return cache_key, None
 
-    return cache_key, dict(cached_value)
+    outputs = dict(cached_value)
+    # Emit sentinels are never stored (a persisted copy would lose its identity)
+    for name in _emit_outputs(node):
+        outputs[name] = _EMIT_SENTINEL
+    return cache_key, outputs
 
 
 def restore_routing_decision(
@@ -70,7 +86,8 @@ def store_in_cache(
     cache_key: str,
 ) -> None:
     """Store a node's outputs in cache, including routing decisions for gates."""
-    to_cache = dict(outputs)
+    emit_names = set(_emit_outputs(node))
+    to_cache = {k: v for k, v in outputs.items() if k not in emit_names}
     if isinstance(node, (RouteNode, IfElseNode)):
         decision = state.routing_decisions.get(node.name)
         if decision is not None:
